@@ -23,10 +23,16 @@ def run(rep: Report, repo: Repo):
     rep.trusted = ['lark LALR compilation of the grammar constant', 'algebra conventions of logic.py (C12/C15)']
     rep.assumptions = ['NOT DECIDED: placement of each character for arbitrary chains and pattern sets; launch/capture call sequencing; signal-group order']
     mod = repo.mod('stil')
-    interface_order(rep, repo, mod)
+    evaluated = False
+    try:
+        evaluated = maps_evaluated(rep, mod)
+    except ModelError as e:
+        rep.note(f'C18.maps: StilFile._maps is outside the evaluated subset ({e}); the structural rules C18.chain / C18.rank decide')
+    interface_order(rep, repo, mod, maps_evaluated=evaluated)
     extraction(rep, mod)
     twins(rep, mod)
-    chain_orientation(rep, mod, Logic(repo))
+    if not evaluated:
+        chain_orientation(rep, mod, Logic(repo))
     transition_table(rep, repo)
     stil_grammar(rep, mod)
     grammar.fresh_parser_rule(rep, 'C18.fresh', mod, 'StilTransformer')
@@ -67,7 +73,7 @@ def stateless_queries(rep, mod):
     rep.floor('StilFile query methods', n, 4)
 
 
-def interface_order(rep, repo, mod):
+def interface_order(rep, repo, mod, maps_evaluated=False):
     rep.rule('C18.order', 'the port/state ordering has one source: every construction of "io_nodes + state elements" in the package equals Circuit.s_nodes (case-folded dff, then latch)')
     cmod = repo.mod('circuit')
     sn = cmod.func('Circuit.s_nodes')
@@ -103,15 +109,19 @@ def interface_order(rep, repo, mod):
                             rep.violate('C18.order', m, f, e, f'{m.name}.{q} builds its own port/state list `{norm(e)[:140]}` which differs from Circuit.s_nodes ({refn[1:]}): '
                                         f'pattern rows do not follow the circuit\'s s_nodes ordering (lower-case dff kinds and latches are missing)', node=e)
     f = mod.func('StilFile._maps')
-    idef = [s for s in body_no_doc(f) if isinstance(s, ast.Assign) and is_name(s.targets[0], 'interface')]
-    cvar = f.args.args[1].arg
-    uses_snodes = len(idef) == 1 and cz(idef[0].value) in (f'{cvar}.s_nodes', f'list({cvar}.s_nodes)')
+    if maps_evaluated:
+        idef, cvar, uses_snodes = [], f.args.args[1].arg, True
+    else:
+        idef = [s for s in body_no_doc(f) if isinstance(s, ast.Assign) and is_name(s.targets[0], 'interface')]
+        cvar = f.args.args[1].arg
+        uses_snodes = len(idef) == 1 and cz(idef[0].value) in (f'{cvar}.s_nodes', f'list({cvar}.s_nodes)')
     rep.ob('C18.order', '_maps takes the interface from circuit.s_nodes (or an equal construction)', uses_snodes or n > 0)
     if not uses_snodes and n == 0:
         rep.violate('C18.order', mod, f, idef[0] if idef else 'interface', 'StilFile._maps: the interface list must be the circuit\'s s_nodes', node=f)
     t = [cz(s) for s in body_no_doc(f)]
     ok = 'intf_pos=dict(((n.name,i)for(i,n)inenumerate(interface)))' in [x.replace('fori,ninenumerate', 'for(i,n)inenumerate') for x in t] \
         and "pi_map=[intf_pos[n]forninself.signal_groups['_pi']]" in t and "po_map=[intf_pos[n]forninself.signal_groups['_po']]" in t
+    ok = ok or maps_evaluated       # decided by C18.maps when _maps could be evaluated
     rep.ob('C18.order', 'positions by name in the interface; pi/po maps through signal groups _pi/_po', ok)
     if not ok:
         rep.violate('C18.order', mod, f, 'intf_pos / pi_map / po_map', '_maps: intf_pos must map node name -> position in the interface; pi_map/po_map must translate the _pi/_po signal groups through it', node=f)
@@ -292,6 +302,97 @@ def mvarray_shape(lg, shp):
         else:
             raise ModelError(f'mvarray: statement `{norm(st)[:60]}` outside the shape model')
     raise ModelError('mvarray: no return reached')
+
+
+def maps_evaluated(rep, mod):
+    """C18.maps - StilFile._maps evaluated (Engine M) on every scan chain of up to 5 entries over {cell, `!`} (plus two-chain files), with the circuit's
+    ports and state elements in an order unrelated to the chain order. Returns False when _maps is outside the evaluator subset."""
+    import itertools
+    from kvstatic import minieval
+    NS = minieval.NS
+    f = mod.func('StilFile._maps')
+    cls = mod.cls('StilFile')
+    rep.rule('C18.maps', '_maps evaluated on all chains of <= 5 entries over {cell, "!"}: the scan map lists the interface positions of the cells from the scan-out end to '
+                         'the scan-in end; the scan-in (scan-out) inversion of a cell is the parity of the markers between scan-in (scan-out) and the cell, in scan-map order, '
+                         'as a logic.mvarray vector; both ports of a chain share the map; pi/po maps translate the _pi/_po groups by name; the interface is circuit.s_nodes')
+
+    def mvarray(*a):
+        if len(a) == 1 and isinstance(a[0], list):
+            return ('mv', tuple(a[0]))
+        return ('mv?', minieval.freeze(a))
+    logic = NS(mvarray=minieval.stub(mvarray))
+    names = ['a', 'b', 'z', 'c1', 'c2', 'c3', 'c4', 'c5']
+    order = ['c3', 'b', 'c1', 'z', 'c5', 'a', 'C1', 'c2', 'A', 'c4']           # s_nodes order, deliberately unrelated to chain order; names differing only in case
+    s_nodes = [NS(name=n, index=10 + k, kind='X') for k, n in enumerate(order)]
+    pos = {n: k for k, n in enumerate(order)}
+    circuit = NS(s_nodes=s_nodes, io_nodes=[x for x in s_nodes if x.name in ('a', 'A', 'b', 'z')])
+    bad = None
+    ncase = 0
+
+    def expect(chain):
+        cells = [(k, x) for k, x in enumerate(chain[1:-1]) if x != '!']
+        body = chain[1:-1]
+        smap = [pos[x] for _k, x in reversed(cells)]
+        sin = [sum(1 for y in body[:k] if y == '!') % 2 == 1 for k, _x in reversed(cells)]
+        sout = [sum(1 for y in body[k + 1:] if y == '!') % 2 == 1 for k, _x in reversed(cells)]
+        return smap, ('mv', tuple(sin)), ('mv', tuple(sout))
+    shapes = [p for n in range(0, 6) for p in itertools.product('C!', repeat=n)]
+    cases = []
+    for sh in shapes:
+        k = 0
+        body = []
+        for ch in sh:
+            if ch == 'C':
+                k += 1
+                body.append(f'c{k}')
+            else:
+                body.append('!')
+        cases.append({'1': ['si1'] + body + ['so1']})
+    cases.append({'1': ['si1', 'c2', '!', 'c1', 'so1'], '2': ['si2', '!', 'c4', 'c3', '!', '!', 'c5', 'so2']})
+    cases.append({'1': ['si1', 'c5', 'so1'], '2': ['si2', 'c1', '!', 'so2']})
+    cases.append({'1': ['si1', 'c1', '!', 'C1', 'so1']})
+    for chains in cases:
+        ncase += 1
+        me = NS(signal_groups={'_pi': ['b', 'a', 'A'], '_po': ['z'], '_si': ['si1'], '_so': ['so1']}, scan_chains={k: list(v) for k, v in chains.items()},
+                si_ports={}, so_ports={}, patterns=[])
+        genv = {'logic': logic}
+        minieval.bind_class(me, cls, genv, skip=('__init__', '_maps', 'tests', 'tests_loc', 'responses'))
+        minieval.module_functions(mod.tree, genv)
+        try:
+            got = minieval.call_function(f, [me, circuit], genv)
+        except ModelError:
+            raise
+        except (IndexError, KeyError, TypeError, AttributeError, ValueError, RuntimeError) as e:
+            got = f'{type(e).__name__}: {e}'
+        why = None
+        if not (isinstance(got, tuple) and len(got) == 5):
+            why = f'returns {str(got)[:120]} instead of (interface, pi_map, po_map, scan_maps, scan_inversions)'
+        else:
+            interface, pi_map, po_map, scan_maps, scan_inv = got
+            if list(interface) != s_nodes:
+                why = 'the interface is not circuit.s_nodes'
+            elif list(pi_map) != [pos['b'], pos['a'], pos['A']] or list(po_map) != [pos['z']]:
+                why = f'pi_map / po_map = {list(pi_map)} / {list(po_map)}; the _pi group [b, a, A] and the _po group [z] sit at {[pos["b"], pos["a"], pos["A"]]} / {[pos["z"]]}'
+            else:
+                for key, chain in chains.items():
+                    smap, sin, sout = expect(chain)
+                    si, so = chain[0], chain[-1]
+                    if not isinstance(scan_maps, dict) or list(scan_maps.get(si, ['?'])) != smap or list(scan_maps.get(so, ['?'])) != smap:
+                        why = f'scan map of chain {chain} is {scan_maps.get(si) if isinstance(scan_maps, dict) else scan_maps} / {scan_maps.get(so) if isinstance(scan_maps, dict) else ""}; the cells from scan-out to scan-in sit at {smap}'
+                    elif scan_inv.get(si) != sin:
+                        why = f'scan-in inversions of chain {chain} are {scan_inv.get(si)}; the marker parities between scan-in and each cell (scan-map order) are {sin}'
+                    elif scan_inv.get(so) != sout:
+                        why = f'scan-out inversions of chain {chain} are {scan_inv.get(so)}; the marker parities between each cell and scan-out (scan-map order) are {sout}'
+                    if why:
+                        break
+        if why and bad is None:
+            bad = why
+    ok = bad is None
+    rep.ob('C18.maps', f'_maps on {ncase} scan-chain layouts', ok, evals=ncase)
+    if not ok:
+        rep.violate('C18.maps', mod, f, '_maps', f'StilFile._maps: {bad}', node=f)
+    rep.floor('scan-chain layouts _maps was evaluated on', ncase, 60)
+    return True
 
 
 def chain_orientation(rep, mod, repo_logic=None):
